@@ -7,6 +7,7 @@ use apollo_compiler::Schema;
 pub fn families() -> Vec<(&'static str, crate::Family)> {
     vec![
         ("c14_dump", c14_dump),
+        ("c14_builtins", c14_builtins),
         ("c14_validate", c14_validate),
         ("c14_validate_params", c14_validate_params),
     ]
@@ -36,16 +37,54 @@ pub fn kinds(errors: &DiagnosticList) -> Vec<String> {
     v
 }
 
-/// input: `<hex source>`; output: `<number of parse and build errors> <their classes or -> <schema dump, built-ins included>`
+fn pristine() -> &'static Schema {
+    static P: std::sync::OnceLock<Schema> = std::sync::OnceLock::new();
+    P.get_or_init(Schema::new)
+}
+
+/// the built-in definitions of `sch` are exactly those of `Schema::new()`, in the same order, before
+/// every other definition
+fn builtins_pristine(sch: &Schema) -> bool {
+    let p = pristine();
+    let nd = p.directive_definitions.len();
+    let nt = p.types.len();
+    sch.directive_definitions.len() >= nd
+        && sch.types.len() >= nt
+        && sch
+            .directive_definitions
+            .values()
+            .zip(p.directive_definitions.values())
+            .all(|(a, b)| a.is_built_in() && a == b)
+        && sch.directive_definitions.values().skip(nd).all(|d| !d.is_built_in())
+        && sch.types.values().zip(p.types.values()).all(|(a, b)| a.is_built_in() && a == b)
+        && sch.types.values().skip(nt).all(|t| !t.is_built_in())
+}
+
+/// `P <dump of the user's definitions>` when the built-in part is pristine (the reader adds it back),
+/// else `F <full dump>`
+pub fn transport(sch: &Schema) -> String {
+    if builtins_pristine(sch) {
+        format!("P {}", crate::schemadump::schema(sch, false))
+    } else {
+        format!("F {}", crate::schemadump::schema(sch, true))
+    }
+}
+
+/// output: the dump of `Schema::new()` (built-in directives, scalars, introspection types)
+fn c14_builtins(_line: &str) -> String {
+    crate::schemadump::schema(pristine(), true)
+}
+
+/// input: `<hex source>`; output: `<number of parse and build errors> <their classes or -> <P|F> <schema dump>`
 fn c14_dump(line: &str) -> String {
     let src = unhex(line.split(' ').next().expect("source"));
     match Schema::parse(src, "schema.graphql") {
-        Ok(sch) => format!("0 - {}", crate::schemadump::schema(&sch, true)),
+        Ok(sch) => format!("0 - {}", transport(&sch)),
         Err(e) => format!(
             "{} {} {}",
             e.errors.len(),
             kinds(&e.errors).join(","),
-            crate::schemadump::schema(&e.partial, true)
+            transport(&e.partial)
         ),
     }
 }
